@@ -26,13 +26,18 @@ def plan(tier, seed, ctx):
         modules[mn] = [('harness/C13_api.cpp', cfg)] + [(l[0], cfg) for l in LIB]
         mopts[mn] = {'nthreads': 2, 'heap': 2048, 'stack': 4096, 'preempt': True}
         units = ['c13_set0', 'c13_set1', 'c13_set_shared'] + ['c13_start_' + s for s, _ in STARTS] + ['c13_start_shared0', 'c13_start_shared1']
-        head = core.decls(units + ['c13_misc', 'c13_epilogue_shared']) + 'void c13_prologue(uint32_t, uint32_t, uint32_t, uint32_t);\nvoid c13_epilogue(uint32_t);\n' + core.unit_selector(units)
+        head = core.decls(units + ['c13_misc', 'c13_epilogue_shared']) + 'void c13_prologue(uint32_t, uint32_t, uint32_t, uint32_t);\nvoid c13_epilogue(uint32_t);\nvoid c13_on_stopped(uint32_t);\nvoid c13_on_inherit(uint32_t);\n' + core.unit_selector(units)
         first = [True]
 
         def add(name, text, what, fam=None):
             queries.append({'name': name, 'module': mn, 'main': (head if first[0] else '') + text, 'unwind': 10, 'timeout': 300, 'sample': what, 'witness': 'any', 'family': fam})
             first[0] = False
         add('%s_misc' % mn, 'void %s_misc(void) { vp_init(); c13_misc(); }\n' % mn, 'escaping exception, On + Yield + CurrentExecutor (sequential) [%s]' % cfg)
+        for dfr in (0, 1):
+            add('%s_on_stopped_%d' % (mn, dfr), 'void %s_on_stopped_%d(void) { vp_init(); c13_on_stopped(%d); }\n' % (mn, dfr, dfr),
+                'On(e) after e was stopped underneath the coroutine [%s, %s]' % (cfg, 'deferred' if dfr else 'inline'))
+            add('%s_on_inherit_%d' % (mn, dfr), 'void %s_on_inherit_%d(void) { vp_init(); c13_on_inherit(%d); }\n' % (mn, dfr, dfr),
+                'On(b) after inheriting b from an awaited FutureOn fulfilled by a foreign thread [%s, %s]' % (cfg, 'deferred' if dfr else 'inline'))
         for (st, which) in STARTS:
             su = 'c13_start_' + st
             kinds = (0, 1, 2) if which in (0, 2, 5) else (0,)
